@@ -144,7 +144,12 @@ func WriteTime(w io.Writer, buf encoding.Bufferer, t time.Time) (n int64, err er
 	if t.IsZero() {
 		m, err = w.Write(make([]byte, 16))
 	} else {
-		m, err = w.Write(EncodeTime(t))
+		b := EncodeTime(t)
+		if len(b) != 16 {
+			// the field is 10 digits of Unix seconds, a space and a 5-byte zone
+			return 0, fmt.Errorf("time %s does not fit the 16-byte time field", t.Format(time.RFC3339))
+		}
+		m, err = w.Write(b)
 	}
 	if err != nil {
 		return 0, err
